@@ -201,6 +201,9 @@ PROP = Prop(
     ],
     assumptions=["a transmission of a call = its token seen on a pipe (HTTP/1.1: in the written bytes; HTTP/2: HPACK-decoded by the peer)",
                  "'the client processed GOAWAY' = the caller that read the GOAWAY bytes issued a later network op or is the one writing now",
-                 "after GOAWAY the peer ignores frames on refused streams and keeps answering the others (RFC 7540 6.8)"],
+                 "after GOAWAY the peer ignores frames on refused streams and keeps answering the others (RFC 7540 6.8)",
+                 "'earlier streams may finish' is read as a permission, not an obligation: on the pinned tree a stream at or below last-stream-id whose "
+                 "response has not arrived when the GOAWAY is read fails with RemoteProtocolError(ConnectionTerminated) (httpcore ends all streams; the h2 "
+                 "library rejects every frame after GOAWAY anyway) - observed, tagged, not judged"],
     explanation="The enumerated layer is exhaustive over fault positions x kinds and over peer-action positions for the listed base scenarios.",
 )
